@@ -22,18 +22,18 @@ type mTx struct {
 }
 
 type mState struct {
-	head                 string
-	txs                  []mTx // 1-based
-	cI, cC, cT, cO, cR   uint64
-	aI, aT, aO, aR, aTm  uint64
-	cVals, aVals         map[string]string
-	state, master        string
-	term                 uint64
-	devUp                bool
-	dev                  map[string]string
-	reqs                 []string
-	events               []mEvent
-	ok                   bool
+	head                string
+	txs                 []mTx // 1-based
+	cI, cC, cT, cO, cR  uint64
+	aI, aT, aO, aR, aTm uint64
+	cVals, aVals        map[string]string
+	state, master       string
+	term                uint64
+	devUp               bool
+	dev                 map[string]string
+	reqs                []string
+	events              []mEvent
+	ok                  bool
 }
 
 type mEvent struct {
